@@ -83,8 +83,13 @@ def solo_events(events, caller, keep_env=()):
     """Projection used by the solo pass: the shared setup (c < 0) plus one caller, no faults
     (except environment kinds listed in keep_env, e.g. the read-only medium of a frozen run)."""
     return [e for e in events if (e.get('env') in keep_env) or
+            ('env' in e and e.get('c') == caller) or           # the caller's own writes into arrays it owns
             ('env' not in e and (e.get('c', 0) < 0 or e.get('c') == caller))]
 
 
 def callers_of(events):
     return sorted({e['c'] for e in events if 'env' not in e and e.get('c', 0) >= 0})
+
+
+def is_call(ev):
+    return 'fn' in ev
